@@ -441,4 +441,19 @@ theorem C10_counterexample_overlapping_prefixes :
                   ("fc.", ⟨.float "w2", none, "i", "o", none, none⟩)]) ≠
     some ⟨.float "w2", none, "i", "o", none, none⟩ := by decide
 
+/-- prefixes of different lengths: independent as soon as neither starts with the other -/
+theorem C10_prefixIndep_of_not_prefix (a b : String) (h1 : ¬ a.toList <+: b.toList)
+    (h2 : ¬ b.toList <+: a.toList) : ∀ x y, a ++ x ≠ b ++ y :=
+  prefixIndep_of_not_prefix a b h1 h2
+
+/-- non-vacuity with prefixes of different lengths and a common stem ("fc1." / "fc10." / a nested path) -/
+example : [("fc1.", sampleModule4), ("fc10.", sampleModule8), ("block.0.fc1.", sampleModule4)].Pairwise
+    fun a b => ∀ x y, a.1 ++ x ≠ b.1 ++ y := by
+  have h12 := C10_prefixIndep_of_not_prefix "fc1." "fc10." (by decide) (by decide)
+  have h13 := C10_prefixIndep_of_not_prefix "fc1." "block.0.fc1." (by decide) (by decide)
+  have h23 := C10_prefixIndep_of_not_prefix "fc10." "block.0.fc1." (by decide) (by decide)
+  simp only [List.pairwise_cons, List.mem_cons, List.not_mem_nil, or_false, forall_eq_or_imp, forall_eq,
+    List.Pairwise.nil, and_true]
+  exact ⟨⟨h12, h13⟩, h23, fun _ h => nomatch h⟩
+
 end Quanto
